@@ -388,6 +388,8 @@ H("dgram_api_native", ["C16", "C13"], "replay-only", "connection::dgram_api_nati
   [("peer", "u32"), ("len_", "u16"), ("drop", "bool")], 4, [], ["Datagrams::max_size", "Datagrams::send"], "native replay body of E2 queries e2_datagrams_max_size / e2_datagrams_send")
 H("endpoint_retry_token_native", ["C14"], "replay-only", "endpoint::retry_token_native",
   [("x", "u8")], 4, [], ["Endpoint::retry", "IncomingToken::from_header"], "native replay body of E2 query e2_endpoint_retry_token")
+H("endpoint_first_initial_native", ["C07", "C14", "C09"], "replay-only", "endpoint::first_initial_native",
+  [("len_", "u16")], 4, [], ["Endpoint::handle", "Endpoint::handle_first_packet"], "native replay body of E2 query e2_endpoint_first_initial")
 H("conn_peer_params_cid_auth_native", ["C14", "C04"], "replay-only", "connection::peer_params_cid_auth_native",
   [("server", "bool"), ("which", "u8")], 4, [], ["Connection::handle_peer_params"], "native replay body of E2 query e2_peer_params_cid_auth")
 
